@@ -19,8 +19,8 @@ from harness import gen_input as gi
 from harness import tables as tb
 
 W = 12
-QUICK_N = [2, 3, 4, 5, 6, 8]
-FULL_N = list(range(2, 15))
+QUICK_N = [2, 3, 4, 5, 6]
+FULL_N = list(range(2, 10))
 
 
 def transform_perm(xy, k=1, mirror=False):
@@ -51,23 +51,27 @@ def gen_perm_tables(ctx, n, rng):
     xy = sc.xy[:nc]
     pxy = rr.pin_lattice.xy
     maxdev = 0.0
-    for name, k, mirror in [("rot%d" % k, k, False) for k in range(1, 6)] + [("mir", 0, True)]:
+    # generators of the symmetry group only: the rotation by 60 degrees and the mirror (every other rotation / reflection is a
+    # composition; Props/C07.lean proves that compositions of automorphisms are automorphisms).  One kernel decision per part keeps
+    # the peak memory of the build low.
+    for name, k, mirror in [("rot1", 1, False), ("mir", 0, True)]:
         pi, d1 = transform_perm(xy, k, mirror)
         sg, d2 = transform_perm(pxy, k, mirror)
         maxdev = max(maxdev, d1, d2)
         L.append("def pi_%s : Nat := 0x%x" % (name, tb.encode(np.array(pi).reshape(-1, 1), W, offset=0)))
         L.append("def sg_%s : Nat := 0x%x" % (name, tb.encode(np.array(sg).reshape(-1, 1), W, offset=0)))
-        if mirror:
-            L.append("def cert_%s : Bool := autoCert ncool nint tyf nb donorCW donorCCW (permOf pi_%s %d)\n"
-                     "  && autoCert ncool nint tyf nb donorCCW donorCW (permOf pi_%s %d)\n"
-                     "  && pinAutoCert npin pinrow (permOf pi_%s %d) (permOf sg_%s %d)" % (name, name, W, name, W, name, W, name, W))
-        else:
-            L.append("def cert_%s : Bool := autoCert ncool nint tyf nb donorCW donorCW (permOf pi_%s %d)\n"
-                     "  && autoCert ncool nint tyf nb donorCCW donorCCW (permOf pi_%s %d)\n"
-                     "  && pinAutoCert npin pinrow (permOf pi_%s %d) (permOf sg_%s %d)" % (name, name, W, name, W, name, W, name, W))
-        certs.append("cert_" + name)
+        other = ("donorCCW", "donorCW") if mirror else ("donorCW", "donorCCW")
+        parts = [("cw", "autoCert ncool nint tyf nb donorCW %s (permOf pi_%s %d)" % (other[0], name, W)),
+                 ("ccw", "autoCert ncool nint tyf nb donorCCW %s (permOf pi_%s %d)" % (other[1], name, W)),
+                 ("pin", "pinAutoCert npin pinrow (permOf pi_%s %d) (permOf sg_%s %d)" % (name, W, name, W))]
+        for pn, body in parts:
+            cn = "cert_%s_%s" % (name, pn)
+            L.append("def %s : Bool := %s" % (cn, body))
+            L.append("set_option maxRecDepth 1000000 in\ntheorem %s_ok : %s = true := by decide +kernel" % (cn, cn))
+            certs.append(cn)
     L.append("def certs : List Bool := [%s]" % ", ".join(certs))
-    L.append("set_option maxRecDepth 1000000 in\ntheorem certs_ok : certs.all (· = true) = true := by decide +kernel")
+    L.append("theorem certs_ok : certs.all (· = true) = true := by\n  simp only [certs, List.all_cons, List.all_nil, decide_true, Bool.and_self, %s]"
+             % ", ".join(c + "_ok" for c in certs))
     L.append("end Dassh.Gen.C07T%d\n" % n)
     ctx.gen("C07T%d" % n, "\n".join(L))
     return maxdev / rr.duct_ftf[-1][1]
